@@ -552,32 +552,33 @@ impl<R: Read, TSpec> TagIterator<R, TSpec>
     }
 
     fn roll_up_children(tag_id: u64, children: Vec<TSpec>) -> TSpec {
-        let mut rolled_children = Vec::new();
+        // Masters currently being rolled up, innermost last (a loop rather than recursion: the nesting depth comes from the input)
+        let mut open: Vec<(u64, Vec<TSpec>)> = vec![(tag_id, Vec::new())];
 
-        let mut iter = children.into_iter();
-        while let Some(child) = iter.next() {
-            if let Some(Master::Start) = child.as_master() {
-                let child_id = child.get_id();
-                // Tags can be nested inside tags with the same id, so the matching end is the one at the same depth
-                let mut depth = 0;
-                let subchildren = iter.by_ref().take_while(|c| {
-                    if c.get_id() == child_id {
-                        match c.as_master() {
-                            Some(Master::Start) => depth += 1,
-                            Some(Master::End) if depth == 0 => return false,
-                            Some(Master::End) => depth -= 1,
-                            _ => {},
-                        }
-                    }
-                    true
-                }).collect();
-                rolled_children.push(Self::roll_up_children(child_id, subchildren));
-            } else {
-                rolled_children.push(child);
+        for child in children {
+            let child_id = child.get_id();
+            match child.as_master() {
+                Some(Master::Start) => open.push((child_id, Vec::new())),
+                Some(Master::End) if open.len() > 1 && open.last().map(|o| o.0) == Some(child_id) => {
+                    let (id, rolled_children) = open.pop().unwrap();
+                    let full_tag = Self::full_master_tag(id, rolled_children);
+                    open.last_mut().unwrap().1.push(full_tag);
+                },
+                _ => open.last_mut().unwrap().1.push(child),
             }
         }
 
-        TSpec::get_master_tag(tag_id, Master::Full(rolled_children)).unwrap_or_else(|| panic!("Bad specification implementation: Tag id 0x{:x?} type was master, but could not get tag!", tag_id))
+        while open.len() > 1 {
+            let (id, rolled_children) = open.pop().unwrap();
+            let full_tag = Self::full_master_tag(id, rolled_children);
+            open.last_mut().unwrap().1.push(full_tag);
+        }
+
+        Self::full_master_tag(tag_id, open.pop().unwrap().1)
+    }
+
+    fn full_master_tag(tag_id: u64, children: Vec<TSpec>) -> TSpec {
+        TSpec::get_master_tag(tag_id, Master::Full(children)).unwrap_or_else(|| panic!("Bad specification implementation: Tag id 0x{:x?} type was master, but could not get tag!", tag_id))
     }
 
     // Number of open masters that remain once every unknown-size master ended by `tag_id` is closed.
